@@ -614,6 +614,7 @@ where
                                 invert: false,
                                 unicode_icase: self.flags.unicode && self.flags.icase,
                             });
+                            quantifier_allowed = false;
                         }
                         // Term :: Assertion :: \B
                         'B' => {
@@ -622,6 +623,7 @@ where
                                 invert: true,
                                 unicode_icase: self.flags.unicode && self.flags.icase,
                             });
+                            quantifier_allowed = false;
                         }
                         // Term :: Atom :: \ AtomEscape :: CharacterEscape :: c AsciiLetter
                         // Term :: ExtendedAtom :: \ [lookahead = c]
